@@ -567,7 +567,7 @@ impl World {
                 })());
                 Observed::NoCall
             }
-            Op::SpecDir { layer, files } => {
+            Op::SpecDir { layer, files, links } => {
                 let base = self.layer_path(*layer);
                 harness((|| {
                     for d in ["env", "env.build", "env.launch"] {
@@ -575,6 +575,9 @@ impl World {
                     }
                     for f in files {
                         write_file(&base, f)?;
+                    }
+                    for k in links {
+                        std::os::unix::fs::symlink(OsStr::from_bytes(&k.target), to_path(&base, &k.path))?;
                     }
                     Ok(())
                 })());
